@@ -1,0 +1,87 @@
+//go:build verif
+
+// Contracts for the deductive verification in /verif (govc): JSON helpers of package pkix
+// (area x509json, properties C02, C33). This file contains comments only; it is compiled only
+// with -tags verif and declares nothing.
+
+package pkix
+
+// ---------------------------------------------------------------- oid.go
+// "AsSlice returns a slice over the inner-representation"
+//@ func (*AuxOID).AsSlice
+//@   requires aux != nil
+//@   ensures same(result, *aux)
+//@   terminates
+// "CopyAsSlice returns a copy of the inter-representation as a slice"
+//@ func (*AuxOID).CopyAsSlice
+//@   requires aux != nil
+//@   ensures fresh(result) && len(result) == len(*aux) && forall(k, 0, len(result), result[k] == old((*aux)[k]))
+//@   modifies nothing
+//@   terminates
+// "Equal tests (deep) equality of two AuxOIDs"
+//@ func (*AuxOID).Equal
+//@   requires aux != nil && other != nil
+//@   loop 1 invariant forall(k, 0, it, (*aux)[k] == (*other)[k])
+//@   ensures result <==> (len(*aux) == len(*other) && forall(k, 0, len(*aux), (*aux)[k] == (*other)[k]))
+//@   modifies nothing
+//@   terminates
+// C33: encoder and decoder of the dotted form are total; the decoder stores one arc per
+// '.'-separated part, every arc non-negative, or fails without touching *aux.
+//@ func (*AuxOID).MarshalJSON
+//@   requires aux != nil
+//@   modifies nothing
+//@   terminates
+//@ func (*AuxOID).UnmarshalJSON
+//@   requires aux != nil
+//@   loop 1 invariant fresh(slice) && len(slice) == len(parts) && forall(k, 0, it, slice[k] >= 0)
+//@   ensures result == nil ==> len(*aux) >= 1 && forall(k, 0, len(*aux), (*aux)[k] >= 0)
+//@   ensures result != nil ==> same(*aux, old(*aux))
+//@   modifies *aux
+//@   terminates
+
+// ---------------------------------------------------------------- json.go
+// C33 (names, attribute type-and-values): every encoder / decoder is total - in particular for
+// whatever json.Unmarshal leaves in the auxiliary struct (any member absent, any list short).
+//@ func (*AttributeTypeAndValue).MarshalJSON
+//@   requires a != nil
+//@   modifies nothing
+//@   terminates
+//@ func (*AttributeTypeAndValue).UnmarshalJSON
+//@   requires a != nil
+//@   modifies all
+//@   terminates
+//@ func (*OtherName).MarshalJSON
+//@   requires o != nil
+//@   modifies nothing
+//@   terminates
+// asn1.Marshal's assumed contract (/verif/extern/x509sig.contracts) allows a panic on any call
+// ("it can panic on values it dereferences"); the value passed here is a RawValue without
+// pointers, but that exemption is not part of the assumed contract, so panic-freedom of this
+// one call is not claimed (`maypanic`; index, nil and assertion checks are still made).
+//@ func (*OtherName).UnmarshalJSON
+//@   requires o != nil
+//@   maypanic
+//@   modifies all
+//@   terminates
+//@ func (*Extension).MarshalJSON
+//@   requires ext != nil
+//@   modifies nothing
+//@   terminates
+//@ func (*Extension).UnmarshalJSON
+//@   requires ext != nil
+//@   modifies all
+//@   terminates
+// appendATV: one attribute (asn1Id, val) per value is appended, in order.
+//@ func appendATV
+//@   loop 1 invariant len(names) == len(old(names)) + it
+//@   ensures len(result) == len(names) + len(fieldVals)
+//@   modifies elems(names, len(names), cap(names))
+//@   terminates
+//@ func (*Name).MarshalJSON
+//@   requires n != nil
+//@   modifies all
+//@   terminates
+//@ func (*Name).UnmarshalJSON
+//@   requires n != nil
+//@   modifies all
+//@   terminates
